@@ -100,7 +100,20 @@ def main():
     broken_obl = [o for o in stage["obligations"] if o["status"] != "ok"]
 
     # ---- correspondence, known findings, oracle ----------------------------------------
-    res = mod.run(ctx, intensify=bool(broken_obl))
+    try:
+        res = mod.run(ctx, intensify=bool(broken_obl))
+    except Exception as e:  # noqa
+        import traceback
+        tb = traceback.format_exc()
+        if "lean driver failed" in tb or "TimeoutError" in tb or "Hang" in type(e).__name__:
+            raise                      # infrastructure (driver, watchdog): exit code 2, never a verdict
+        # the harness could not even observe the code (an attribute the real objects always have is missing, a call that
+        # never raises now raises …): the correspondence no longer runs, which is reported as such — on the unchanged tree
+        # this never happens (every sweep exercises these paths)
+        path = write_replay(prop, {"property": prop, "kind": "correspondence-harness-cannot-observe-the-code", "exception": type(e).__name__,
+                                   "message": str(e)[:500], "traceback": tb[-3000:], "seed": seed, "tier": tier})
+        print(f"VIOLATION property={prop} replay={path} no-failing-input-found")
+        return 1
     # if a correspondence suite disagrees, run the search once more, intensified
     broken_suites = [s for s in res.suites if s["disagreements"]]
     if broken_suites and not res.violations and not broken_obl and hasattr(mod, "search"):
